@@ -77,7 +77,7 @@ def replay(ctx, beh_path, name="r"):
 
     def one(i):
         ev = shards[i] + ".events"
-        out = ctx.harness("vhfmt", ["fmtreplay", "-events", ev], stdin_path=shards[i], out_name="%s_res_%02d.jsonl" % (name, i))
+        out = ctx.harness("vhfmt", ["fmtreplay", "-window", "-events", ev], stdin_path=shards[i], out_name="%s_res_%02d.jsonl" % (name, i))
         return out, ev
     with ThreadPoolExecutor(max_workers=n) as ex:
         res = list(ex.map(one, range(n)))
